@@ -32,20 +32,35 @@
 // VERIF-KNOWN while the defects reproduce; with VERIF_C17_ASSUME_FIXED=1 nothing is
 // excluded and the pinned cases are ordinary regression cases.
 //
-// Sensitivity (scratch worktree, quick tier, VERIF_C17_ASSUME_FIXED unset unless noted;
-// every mutant below made ./check C17 exit 1):
+// Sensitivity (scratch worktree, quick tier; every mutant made ./check C17 exit 1).
+// On the unchanged code, VERIF_C17_ASSUME_FIXED unset:
 //
-//	M1 strings.SplitN(line,"=",2) -> strings.Split(line,"=")      caught (exact: value)
-//	M2 '#' anywhere in the line starts a comment                  caught (exact: value)
-//	M3 values not trimmed                                         caught (exact: value)
-//	M4 earlier duplicate wins                                     caught (exact: value)
-//	M5 GetDomain omits the last sub-domain                        caught (exact: GetDomain)
-//	M6 GetIntWithDef returns 0 instead of the default (malformed) caught (exact: typed)
-//	M7 keys lower-cased when stored (case-insensitive)            caught
-//	M8 repeated domain replaces instead of merging                caught
-//	M9 comment lines kept in GetDomainLine                        caught
-//	M10 GetInt32WithDef parses with bitSize 64 (truncates)        caught
-//	M11 unchanged tree with VERIF_C17_ASSUME_FIXED=1              caught (silently-partial)
+//	M1  strings.SplitN(line,"=",2) -> strings.Split(line,"=")       value
+//	M2  '#' anywhere in the line starts a comment                   value / GetDomainLine
+//	M3  values not trimmed                                          value
+//	M4  earlier duplicate wins                                      value
+//	M5  GetDomain omits the last sub-domain                         GetDomain
+//	M6  GetIntWithDef returns 0 instead of the default (malformed)  typed
+//	M7  keys lower-cased when stored                                GetDomainKey
+//	M8  repeated domain replaces instead of merging                 GetDomain
+//	M9  comment lines kept in GetDomainLine                         GetDomainLine
+//	M10 GetInt32WithDef parses with bitSize 64 (truncates)          typed
+//	M12 GetBoolWithDef false / M13 GetFloatWithDef 0 on malformed   typed
+//	M14 quotes trimmed like blanks                                  GetDomainLine
+//	M15 line without '=' defines no key                             GetDomainKey
+//	M19 GetStringWithDef returns "" for an absent key               value
+//	M21 GetDomainLine holds untrimmed lines                         GetDomainLine
+//	M22 empty key stored as key ""                                  GetDomainKey
+//	M23 last line without terminator lost                           GetDomainKey
+//
+// With VERIF_C17_ASSUME_FIXED=1:
+//
+//	M11 unchanged tree (token errors ignored = D-C17-silent etc.)   silently-partial in
+//	    classB, classC, malformed, pinned; long line in classA
+//	F1  proposed fix without the scanner buffer/Err part            classA long line
+//	F2  proposed fix with syntax errors ignored again               silently-partial
+//	F3  proposed fix with the single child map again                silently-partial (C)
+//	F4  panic when nesting > 5                                      panic
 package c17
 
 import (
